@@ -81,4 +81,5 @@ MUTANTS += [
         {"file": I, "old": DEF_C_ADJ, "new": DEF_C_ADJ_G},
         {"file": I, "old": SOLVE_C, "new": SOLVE_C_G},
     ]},
+    {'id': 'c02-undo-F23-aux', 'prop': 'C02', 'rule': 'R9', 'key': 'cache-store-may-alias-variable', 'edits': [{'file': 'states.py', 'old': '                        state._cache[k] = _without_variable_aliasing(state, v)\n', 'new': '                        state._cache[k] = v\n'}]},
 ]
